@@ -49,6 +49,7 @@ struct Input {
     }
 };
 
+static const char LONG_OLD[] = "an old value that is long enough to live on the heap";
 static const Input *g_in = nullptr;
 static const char *g_route = "";
 static const char *g_mode = "";
@@ -202,6 +203,11 @@ static void from_utf8(const Input &in, bool full)
             route<char>("string.set(char8_t*,n)", mn, oks, wants, [&] { ST::string s("old"); s.set(p8, n, m); return s; });
             route<char>("string.set(char_buffer)", mn, oks, wants, [&] { ST::string s("old"); s.set(cb, m); return s; });
             route<char>("string.set(char_buffer&&)", mn, oks, wants, [&] { ST::string s("old"); ST::char_buffer t(cb); s.set(std::move(t), m); return s; });
+            // ... the same over a target that holds a long (heap) value
+            route<char>("string.set(const char*,n) over long", mn, oks, wants, [&] { ST::string s(LONG_OLD); s.set(p, n, m); return s; });
+            route<char>("string.set(char_buffer) over long", mn, oks, wants, [&] { ST::string s(LONG_OLD); s.set(cb, m); return s; });
+            route<char>("string.set(char_buffer&&) over long", mn, oks, wants, [&] { ST::string s(LONG_OLD); ST::char_buffer t(cb); s.set(std::move(t), m); return s; });
+            route<char>("string=string&& over long", mn, oks, wants, [&] { ST::string s(LONG_OLD); s = ST::string(p, n, m); return s; });
             route<char>("string(std::string)", mn, oks, wants, [&] { return ST::string(b, m); });
             route<char>("string(string_view)", mn, oks, wants, [&] { return ST::string(std::string_view(p, n), m); });
             route<char>("string(u8string)", mn, oks, wants, [&] { return ST::string(std::u8string(p8, n), m); });
@@ -274,6 +280,12 @@ static void from_utf8(const Input &in, bool full)
         route<char>("string::from_validated(char8_t)", "n/a", true, b, [&] { return ST::string::from_validated(p8, n); });
         route<char>("string::from_validated(buffer)", "n/a", true, b, [&] { return ST::string::from_validated(cb); });
         route<char>("string.set_validated", "n/a", true, b, [&] { ST::string s("old"); s.set_validated(p, n); return s; });
+        route<char>("string.set_validated(char8_t)", "n/a", true, b, [&] { ST::string s(LONG_OLD); s.set_validated(p8, n); return s; });
+        route<char>("string.set_validated(char_buffer)", "n/a", true, b, [&] { ST::string s("old"); s.set_validated(cb); return s; });
+        route<char>("string.set_validated(char_buffer) over long", "n/a", true, b, [&] { ST::string s(LONG_OLD); s.set_validated(cb); return s; });
+        route<char>("string.set_validated(char_buffer&&)", "n/a", true, b, [&] { ST::string s(LONG_OLD); ST::char_buffer t(cb); s.set_validated(std::move(t)); return s; });
+        route<char>("string::from_validated(buffer&&)", "n/a", true, b, [&] { ST::char_buffer t(cb); return ST::string::from_validated(std::move(t)); });
+        route<char>("string.set_validated over long", "n/a", true, b, [&] { ST::string s(LONG_OLD); s.set_validated(p, n); return s; });
         route<char>("operator\"\"_st(char)", "n/a", true, b, [&] { return ST::literals::operator""_st(p, n); });
         route<char>("operator\"\"_st(char8_t)", "n/a", true, b, [&] { return ST::literals::operator""_st(p8, n); });
         route<char>("operator\"\"_stbuf(char)", "n/a", true, b, [&] { return ST::literals::operator""_stbuf(p, n); });
@@ -559,8 +571,40 @@ static void from_scalars(const std::vector<unsigned long> &cps, bool full)
 
 static std::vector<unsigned long> neighbours = {0x41, 0xE9, 0x20AC, 0x1F600};
 
+// a single character appended / prepended through every operator+ / operator+= spelling: the code point converted to UTF-8
+// (char is one Latin-1 unit, char16_t one BMP unit, char32_t and wchar_t one code point)
+static void char_concatenation(unsigned long c)
+{
+    Input in{32, {}, {}, S32(1, static_cast<char32_t>(c))};
+    g_in = &in;
+    S enc;
+    ref::enc_utf8(enc, c);
+    const S base = "ab\xC3\xA9", longbase = "a base that is long enough to live on the heap \xE2\x82\xAC";
+    for (const S &b : {base, longbase}) {
+        const ST::string bs = ST::string::from_validated(b.data(), b.size());
+        route<char>("string+char32_t", "n/a", true, b + enc, [&] { return bs + static_cast<char32_t>(c); });
+        route<char>("char32_t+string", "n/a", true, enc + b, [&] { return static_cast<char32_t>(c) + bs; });
+        route<char>("string+=char32_t", "n/a", true, b + enc, [&] { ST::string s(bs); s += static_cast<char32_t>(c); return s; });
+        route<char>("string+wchar_t", "n/a", true, b + enc, [&] { return bs + static_cast<wchar_t>(c); });
+        route<char>("wchar_t+string", "n/a", true, enc + b, [&] { return static_cast<wchar_t>(c) + bs; });
+        route<char>("string+=wchar_t", "n/a", true, b + enc, [&] { ST::string s(bs); s += static_cast<wchar_t>(c); return s; });
+        if (c <= 0xFFFF) {
+            route<char>("string+char16_t", "n/a", true, b + enc, [&] { return bs + static_cast<char16_t>(c); });
+            route<char>("char16_t+string", "n/a", true, enc + b, [&] { return static_cast<char16_t>(c) + bs; });
+            route<char>("string+=char16_t", "n/a", true, b + enc, [&] { ST::string s(bs); s += static_cast<char16_t>(c); return s; });
+        }
+        if (c <= 0xFF) {
+            route<char>("string+char", "n/a", true, b + enc, [&] { return bs + static_cast<char>(c); });
+            route<char>("char+string", "n/a", true, enc + b, [&] { return static_cast<char>(c) + bs; });
+            route<char>("string+=char", "n/a", true, b + enc, [&] { ST::string s(bs); s += static_cast<char>(c); return s; });
+        }
+    }
+    vrt::count("char_concatenations");
+}
+
 static void scalar_contexts(unsigned long c, bool full)
 {
+    char_concatenation(c);
     from_scalars({c}, full);
     for (unsigned long nb : neighbours) {
         from_scalars({nb, c}, false);
@@ -596,6 +640,7 @@ static void c01_body()
     vrt::require("width.4", 1000);
     vrt::require("sequences", 1000);
     vrt::require("latin1.strings", 256);
+    vrt::require("char_concatenations", 300);
     if (vrt::thorough()) {
         vrt::note("every one of the 1,112,064 Unicode scalar values in 13 contexts ([c], and [n c], [c n], [n c n] for n in U+0041, U+00E9, U+20AC, U+1F600), through every conversion route and all three modes");
         vrt::phase("all_scalars", NSCALARS, [&](uint64_t i, Rng &) {
@@ -868,6 +913,30 @@ static void malformed_phases(bool safety_only)
                 route<char>("string::from_utf16(null)", mn, true, S(), [&] { return ST::string::from_utf16(n16, ST_AUTO_SIZE, m); });
                 route<char>("string::from_utf32(null)", mn, true, S(), [&] { return ST::string::from_utf32(n32, ST_AUTO_SIZE, m); });
                 route<char>("string::from_wchar(null)", mn, true, S(), [&] { return ST::string::from_wchar(nw, ST_AUTO_SIZE, m); });
+                // null pointers with the size left to the library, through every set() / operator= / constructor spelling
+                const char8_t *nu8 = nullptr;
+                route<char>("string.set(null8)", mn, true, S(), [&] { ST::string s("old"); s.set(n8, ST_AUTO_SIZE, m); return s; });
+                route<char>("string.set(nullu8)", mn, true, S(), [&] { ST::string s(LONG_OLD); s.set(nu8, ST_AUTO_SIZE, m); return s; });
+                route<char>("string.set(null16)", mn, true, S(), [&] { ST::string s("old"); s.set(n16, ST_AUTO_SIZE, m); return s; });
+                route<char>("string.set(null32)", mn, true, S(), [&] { ST::string s(LONG_OLD); s.set(n32, ST_AUTO_SIZE, m); return s; });
+                route<char>("string.set(nullw)", mn, true, S(), [&] { ST::string s("old"); s.set(nw, ST_AUTO_SIZE, m); return s; });
+                route<char>("string(null16)", mn, true, S(), [&] { return ST::string(n16, ST_AUTO_SIZE, m); });
+                route<char>("string(null32)", mn, true, S(), [&] { return ST::string(n32, ST_AUTO_SIZE, m); });
+                route<char>("string(nullw)", mn, true, S(), [&] { return ST::string(nw, ST_AUTO_SIZE, m); });
+                route<char>("string(nullu8)", mn, true, S(), [&] { return ST::string(nu8, ST_AUTO_SIZE, m); });
+                if (mi == 0) {
+                    route<char>("string=null8", "default", true, S(), [&] { ST::string s("old"); s = n8; return s; });
+                    route<char>("string=nullu8", "default", true, S(), [&] { ST::string s("old"); s = nu8; return s; });
+                    route<char>("string=null16", "default", true, S(), [&] { ST::string s(LONG_OLD); s = n16; return s; });
+                    route<char>("string=null32", "default", true, S(), [&] { ST::string s("old"); s = n32; return s; });
+                    route<char>("string=nullw", "default", true, S(), [&] { ST::string s(LONG_OLD); s = nw; return s; });
+                    route<char>("string+=null8", "default", true, S("old"), [&] { ST::string s("old"); s += n8; return s; });
+                    route<char>("string+=null16", "default", true, S("old"), [&] { ST::string s("old"); s += n16; return s; });
+                    route<char>("string+=null32", "default", true, S("old"), [&] { ST::string s("old"); s += n32; return s; });
+                    route<char>("string+=nullw", "default", true, S("old"), [&] { ST::string s("old"); s += nw; return s; });
+                    route<char>("string+null16", "default", true, S("old"), [&] { return ST::string("old") + n16; });
+                    route<char>("null32+string", "default", true, S("old"), [&] { return n32 + ST::string("old"); });
+                }
             }
             {
                 const char *n8 = nullptr;
@@ -899,6 +968,42 @@ static void malformed_phases(bool safety_only)
     }
 }
 
+// Inputs whose UTF-8 *result* is just above 256 MiB while the input itself is below 256 Mi units (the documented size
+// contract is about the input).  One conversion per case (about 1 s and 0.5 GB each), checked by size, ends and terminator.
+static void huge_result_phase()
+{
+    if (vrt::opt().scale < 1.0) return;          // not under valgrind (the scaled-down memcheck pass)
+    vrt::require("inputs.huge_result", 3);
+    vrt::phase("huge_results", 3, [&](uint64_t i, Rng &) {
+        vrt::case_cpu_budget() = 600;
+        const size_t target = (size_t(1) << 28) + 64;            // bytes of UTF-8 to produce
+        g_route = i == 0 ? "latin_1_to_utf8(huge)" : i == 1 ? "utf16_to_utf8(huge)" : "utf32_to_utf8(huge)";
+        g_mode = "check_validity";
+        vrt::cur_rewind();
+        vrt::cur_printf("%s producing %zu bytes\n", g_route, target);
+        Input none{8, {}, {}, {}};
+        g_in = &none;
+        try {
+            ST::char_buffer out;
+            size_t units = 0;
+            if (i == 0) { units = target / 2; std::string in(units, static_cast<char>(0xE9)); out = ST::latin_1_to_utf8(in.data(), in.size()); }
+            else if (i == 1) { units = target / 3 + 1; std::u16string in(units, char16_t(0x4E2D)); out = ST::utf16_to_utf8(in.data(), in.size(), ST::check_validity); }
+            else { units = target / 4; std::u32string in(units, char32_t(0x1F600)); out = ST::utf32_to_utf8(in.data(), in.size(), ST::check_validity); }
+            vrt::evals();
+            const size_t per = i == 0 ? 2 : i == 1 ? 3 : 4;
+            static const char *const enc[] = {"\xC3\xA9", "\xE4\xB8\xAD", "\xF0\x9F\x98\x80"};
+            if (out.size() != units * per) fail("wrong-size", sfmt("%zu units gave %zu bytes", units, out.size()));
+            else if (memcmp(out.data(), enc[i], per) != 0 || memcmp(out.data() + out.size() - per, enc[i], per) != 0 || memcmp(out.data() + (out.size() / per / 2) * per, enc[i], per) != 0)
+                fail("wrong-units", "first / middle / last character of the huge result");
+            else if (out.data()[out.size()] != 0) fail("no-terminator", "huge result");
+        } catch (const std::exception &e) {
+            fail("unexpected-exception", sfmt("%s: %s", vrt::demangle(typeid(e).name()).c_str(), e.what()));
+        }
+        vrt::case_cpu_budget() = 30;
+        vrt::count("inputs.huge_result");
+    });
+}
+
 static void c02_body()
 {
     PROP = "C02";
@@ -926,6 +1031,7 @@ static void c03_body()
     vrt::require("inputs.null_or_empty", 1);
     vrt::require("inputs.long", 3);
     malformed_phases(true);
+    huge_result_phase();
 }
 
 static void body()
